@@ -8,6 +8,7 @@ import os
 from abc import ABC, abstractmethod
 from pathlib import Path
 from typing import TYPE_CHECKING
+from urllib.parse import unquote
 
 from ..content.gemtext import generate_directory_listing
 from ..protocol.constants import (
@@ -97,8 +98,8 @@ class StaticFileHandler(RequestHandler):
         Returns:
             A GeminiResponse with the file contents or an error.
         """
-        # Get the requested path (remove leading slash)
-        requested_path = request.path.lstrip("/")
+        # Get the requested path (percent-decoded, without leading slash)
+        requested_path = unquote(request.path).lstrip("/")
 
         # Construct the full file path
         file_path = (self.document_root / requested_path).resolve()
@@ -114,6 +115,13 @@ class StaticFileHandler(RequestHandler):
             for index_name in self.default_indices:
                 index_path = file_path / index_name
                 if index_path.exists() and index_path.is_file():
+                    # The index file may be a symlink: it must stay inside the
+                    # document root like any other requested path
+                    index_path = index_path.resolve()
+                    if not self._is_safe_path(index_path):
+                        return GeminiResponse(
+                            status=StatusCode.NOT_FOUND.value, meta="Not found"
+                        )
                     file_path = index_path
                     index_found = True
                     break
